@@ -40,6 +40,9 @@ KINDS = [
     "  40100c:\tf0                   \tlock",
     "  40100d:\t48                   \trex.W",
     "  40100e:\t48 b8 88 77 66 55 44 \tmovabs $0x1122334455667788,%rax",
+    "  401018:\te8 13 00 00 00       \tcall   401030 <" + "N" * 1200 + "+0x10>",
+    "  40101d:\t48 8d 05 00 00 00 00 \tlea    0x0(%rip),%rax        # 404010 <" + "_ZN" + "4name" * 1000 + "E+0x8>",
+    "0000000000401030 <" + "very_long_label_" * 100 + ">:",
 ]
 
 
@@ -47,8 +50,24 @@ def bounds(tier):
     return {"tails": len(ob.tails_for(tier)), "line_seq_len": 3 if tier == "quick" else 4}
 
 
+def run_long(shard, tier, h, res, known):
+    """listings of 2^15+1 .. 2^17+1 instruction lines (count / order / address on every record)"""
+    from mc.common import fmt_line
+    n = shard["n_lines"]
+    unit = [("mov", ["%rsp", "%rbp"]), ("call", ["401030"]), ("ret", []), ("lea", ["0x7f98(,%r15,4)", "%r10"])]
+    lines = ["", "x:     file format elf64-x86-64", "", "", "Disassembly of section .text:", "", "0000000000400000 <f>:"]
+    lines += [fmt_line(f"{0x400000 + 5 * i:x}", *unit[i % 4]) for i in range(n)]
+    text = "\n".join(lines) + "\n"
+    problems, cnt = ob.analyse_text(h, h.mop(ob._TRIVIAL_RULE), text, CLAUSES + ("operands",))
+    res.evaluations += n
+    res.nontrivial += n
+    for clause, line, exp, obs in problems[:5]:
+        res.fail({"clause": clause, "family": "long", "n_lines": n, "line": line, "expected": str(exp)[:200], "observed": str(obs)[:200], "size": n}, known)
+
+
 def shards(tier):
-    return ob.window_shards(tier) + ob.eos_shards(tier) + [{"kind": "exotic"}] + [{"kind": "lines", "lo": i, "n": 8} for i in range(8)]
+    longs = [{"kind": "long", "n_lines": n} for n in ([32769, 65537, 70001] if tier == "quick" else [32769, 65537, 70001, 131073, 200001])]
+    return longs + ob.window_shards(tier) + ob.eos_shards(tier) + [{"kind": "exotic"}] + [{"kind": "lines", "lo": i, "n": 8} for i in range(8)]
 
 
 CONFIGS = [None, {"valid_addr_range": {"min": "401000", "max": "401fff"}}, {"mnemonics-full-match": True, "operands-full-match": True},
@@ -77,7 +96,9 @@ def run_lines_conf(shard, tier, h, res, known, clauses, conf):
 
 
 def run_shard(shard, tier, h, res, known):
-    if shard["kind"] == "lines":
+    if shard["kind"] == "long":
+        run_long(shard, tier, h, res, known)
+    elif shard["kind"] == "lines":
         run_lines(shard, tier, h, res, known, CLAUSES)
     elif shard["kind"] == "eos":
         ob.run_eos_shard(shard, tier, h, res, known, CLAUSES, ID)
@@ -89,11 +110,16 @@ def run_shard(shard, tier, h, res, known):
 
 def controls(h):
     c = [rm.classify_line(k)[0] for k in KINDS]
-    if c != ["inst", "inst", "other", "other", "other", "other", "other", "cont", "inst", "inst", "inst", "inst", "inst"]:
+    if c != ["inst", "inst", "other", "other", "other", "other", "other", "cont", "inst", "inst", "inst", "inst", "inst", "inst", "inst", "other"]:
         raise HarnessError(f"line classifier wrong on the line kinds: {c}")
 
 
 def replay(case, h):
+    if case.get("family") == "long":
+        r = type("R", (), {"evaluations": 0, "nontrivial": 0, "fails": []})()
+        r.fail = lambda c, k: r.fails.append(c)
+        run_long({"n_lines": case["n_lines"]}, "quick", h, r, set())
+        return bool(r.fails), str(r.fails)[:300]
     if case.get("family") == "lines":
         from mc.common import make_rule_doc
         problems, _ = ob.analyse_text(h, h.mop(make_rule_doc(["zzzznomatch"], case.get("config"))), case["text"], CLAUSES)
